@@ -52,6 +52,8 @@ class Model:
         self.override: Dict[str, bool] = {}           # generated file since edited/replaced by the user
         self.known: set = set()                       # names redo has a Files row for (model's belief)
         self.interrupted: set = set()                 # targets whose script was running when the whole tree was killed
+        self.ver_at_build: Dict[str, int] = {}        # version a target had right after its last successful build
+        self.noticed: set = set()                     # hand-edited generated files that a build command has looked at since
         for s, alpha in world.sources.items():
             if s in world.absent:
                 self.content[s] = None
@@ -276,8 +278,13 @@ class RefBuild:
                         break
                     continue
                 if m.ver.get(d, 0) != sv:
-                    r = self.YES
-                    break
+                    unseen_edits_only = (self.is_target(d) and m.kind_at_build.get(d) == "csum" and d in m.digest
+                                         and d not in m.noticed and sv == m.ver_at_build.get(d))
+                    if not unseen_edits_only:
+                        r = self.YES
+                        break
+                    # X was built from d's last build; d was hand-edited since, but no build has looked at it, and it is
+                    # redo's to rebuild again (the user removed their version): what matters is the checksum it gets
                 if self.is_target(d):
                     r = max(r, self.will_change(d, memo, stack + (X,)))
                     if r == self.YES:
@@ -483,6 +490,8 @@ class RefBuild:
             return True
         if m.is_sourcelike(X):
             m.known.add(X)
+            if m.override.get(X):
+                m.noticed.add(X)      # redo has seen the user's version (and forgets the checksum of its own)
             self.done[X] = "ok"
             return True
         rule = m.rule_for(X)
@@ -629,8 +638,14 @@ class RefBuild:
             return False
         dg = hashlib.sha1(v.encode()).hexdigest()
         changed = True
-        if spec.kind == "csum" and m.kind_at_build.get(X) == "csum" and m.built.get(X) and m.digest.get(X) == dg:
+        if spec.kind == "csum" and m.kind_at_build.get(X) == "csum" and m.built.get(X) and m.digest.get(X) == dg \
+                and X not in m.noticed:
             changed = False
+            # hand edits that no build ever looked at do not count: whoever was built from the previous build's output
+            # is still up to date (versions bumped by those edits are rolled back)
+            if X in m.ver_at_build:
+                m.ver[X] = m.ver_at_build[X]
+        m.noticed.discard(X)
         m.content[X] = v
         m.owner[X] = "redo"
         m.override.pop(X, None)
@@ -644,6 +659,7 @@ class RefBuild:
             m.digest.pop(X, None)
         if changed:
             m.bump(X)
+        m.ver_at_build[X] = m.ver.get(X, 0)
         m.interrupted.discard(X)
         self.done[X] = "ok"
         return True
